@@ -144,6 +144,7 @@ func FuzzC16StrictYAML(f *testing.F) {
 
 // ---------- C14: the version is used verbatim or split into a valid major.minor.patch ----------
 
+var longDigits = regexp.MustCompile(`[0-9]{19,}`)
 var coreRe = regexp.MustCompile(`^[0-9]+\.[0-9]+\.[0-9]+$`)
 var strictSemver = regexp.MustCompile(`^v?(0|[1-9][0-9]*)(\.(0|[1-9][0-9]*))?(\.(0|[1-9][0-9]*))?(-((0|[1-9][0-9]*|[0-9]*[a-zA-Z-][0-9a-zA-Z-]*)(\.(0|[1-9][0-9]*|[0-9]*[a-zA-Z-][0-9a-zA-Z-]*))*))?(\+([0-9a-zA-Z-]+(\.[0-9a-zA-Z-]+)*))?$`)
 
@@ -160,6 +161,9 @@ func FuzzC14Split(f *testing.F) {
 			if r < 0x20 || r > 0x7e {
 				return
 			}
+		}
+		if longDigits.MatchString(version) {
+			return // numeric identifiers beyond 18 digits overflow every implementation's integers: outside the domain
 		}
 		sc := &SplitCase{V: GenVersion{Text: version}}
 		sc.Explicit.Pre, sc.Explicit.Meta = pre, meta
